@@ -14,6 +14,7 @@ an absent optional value is `-`.
     cfgmain <passResolved> <cliDefault?> <imxMode> ENV ARGS   → vela.main up to the ArchitectureFeatures object
     cfgspecaf ENV ( N | <k> { <path> } ) <acc> <sys> <mem> <cli?> OBS    → documented rules on an observed outcome
     cfgspecmain ENV ARGS OBS
+    cfgspecread INI <sec> <key> ( err | ok - | ok <value> )
     cfgnorm <path> / cfgfloat <s> / cfgint <s>                → glue: normpath, float(), int()
     OBS  := err | ok <the tokens of an `ok` answer>
 -/
@@ -158,6 +159,19 @@ def handle : List String → Option String
     | .ok none => some "ok -"
     | .ok (some v) => some ("ok =" ++ v)
     | .error e => some (errStr e)
+  | "cfgspecread" :: rest => do
+    let ((ini, sec, key), obs) ← run (do let i ← pIni; let s ← str; let k ← str; pure (i, s, k)) rest
+    let expected := (Spec.Config.chain ini (Spec.Config.fuelFor ini) sec).map (Spec.Config.nearest key)
+    match expected, obs with
+    | none, ["err"] => some "1"
+    | some none, ["ok", "-"] => some "1"
+    | some (some v), ["ok", t] =>
+      match run str [t] with
+      | some (w, _) => some (if w == v then "1" else "0 expected=ok =" ++ v)
+      | none => some "0 bad-obs"
+    | none, _ => some "0 expected=err"
+    | some none, _ => some "0 expected=ok -"
+    | some (some v), _ => some ("0 expected=ok =" ++ v)
   | "cfgaf" :: rest => do
     let ((env, files, imx, acc, sys, mem, cli), _) ← run (do
       let e ← pEnv; let f ← pFiles; let i ← nat; let a ← str; let s ← str; let m ← str; let c ← optInt
